@@ -41,3 +41,23 @@ Theorem C20_examples :
 Proof. exact invalid_examples. Qed.
 Print Assumptions C20_examples.
 
+
+(* ---- the SOURCE of LocusConfig.__init__ (translated on every run by translate/configs2coq.py into gen/ConfigsGen.v): its guards,
+   in the order the code evaluates them, are the model's, reject every configuration outside the documented domain and accept
+   every one inside it ---- *)
+From PG Require Import gen.NpConfigs gen.ConfigsGen proofs.GenConfigsEquiv.
+Theorem C20_locus_py_guards_are_the_model : forall n u r, LocusConfig_init_verdict n u r = outcome (RLocusConfig n u r).
+Proof. exact gen_locus_config_guards. Qed.
+Theorem C20_locus_py_rejects_invalid_configurations : forall n u r,
+  ~ ((1 <= n <= 2)%Z /\ (0 <= u)%Z /\ (0 <= r)%Q) -> LocusConfig_init_verdict n u r <> Ok.
+Proof. exact source_locus_config_rejects. Qed.
+Theorem C20_locus_py_accepts_valid_configurations : forall n u r,
+  (1 <= n <= 2)%Z -> (0 <= u)%Z -> (0 <= r)%Q -> LocusConfig_init_verdict n u r = Ok.
+Proof. exact source_locus_config_accepts. Qed.
+Theorem C20_locus_py_more_than_two_loci_not_implemented : forall n u r,
+  (2 < n)%Z -> LocusConfig_init_verdict n u r = NotImpl.
+Proof. exact source_more_than_two_loci_not_implemented. Qed.
+Print Assumptions C20_locus_py_guards_are_the_model.
+Print Assumptions C20_locus_py_rejects_invalid_configurations.
+Print Assumptions C20_locus_py_accepts_valid_configurations.
+Print Assumptions C20_locus_py_more_than_two_loci_not_implemented.
